@@ -162,6 +162,8 @@ Qed.
 
 (* ---- the grouping state, abstractly: the pending block and the map writes so far *)
 Definition dfl : cline := mkCline [] 0 0.
+Definition dfl_nl : nlk * gline := (NlLF, mkGl [] None).
+Definition glen (l : gline) : nat := length (render_gline l).
 Definition cst_of (pend : list cline) (last : Z) (em : list (Z * cinfo)) : cstate :=
   mkCst (match pend with [] => None | _ => Some (mkCinfo pend true true) end) last em.
 Definition finish (cs : cstate) : list (Z * cinfo) :=
@@ -230,26 +232,30 @@ Lemma rest_steps : forall r fuel p2 p1 s tail pend last em errs pc,
   (length (render_rest r) <= fuel)%nat -> (pline p1 <= line s)%Z -> pend_ok pend last ->
   exists s' cs', skip_ws_f fuel p2 p1 s (cst_of pend last em) errs = (s', cs', errs)
     /\ chunk s' = tail /\ line s' = (line s + Z.of_nat (length r))%Z
-    /\ finish cs' = em ++ map block_entry (runs (rest_clines (line s) r) pend last).
+    /\ finish cs' = em ++ map block_entry (runs (rest_clines (line s) r) pend last)
+    /\ pos s' = (pos s + Z.of_nat (length (render_rest r)))%Z
+    /\ lsp s' = match r with [] => lsp s | _ => (pos s' - Z.of_nat (glen (snd (List.last r dfl_nl))))%Z end.
 Proof.
   induction r as [|[k l] t IH]; intros fuel p2 p1 s tail pend last em errs pc Hc Hr Ht Hf Hp Hpe.
   - cbn [render_rest app] in Hc. exists s, (cst_of pend last em).
     split; [apply tail_stop; rewrite Hc; exact Ht|]. split; [exact Hc|].
-    split; [cbn [length]; lia|]. cbn [rest_clines]. apply finish_cst. exact Hpe.
+    split; [cbn [length]; lia|]. split; [cbn [rest_clines]; apply finish_cst; exact Hpe|].
+    split; [cbn [render_rest length]; lia|reflexivity].
   - cbn [rest_ok] in Hr. apply andb_true_iff in Hr. destruct Hr as [Hr Hr3]. apply andb_true_iff in Hr. destruct Hr as [Hl Hk].
     unfold gline_ok in Hl. apply andb_true_iff in Hl. destruct Hl as [Hind Hcm].
     cbn [render_rest] in Hc, Hf. rewrite !app_length in Hf.
-    destruct s as [ch ln ls p]. cbn [chunk line] in *.
+    destruct s as [ch ln ls p]. cbn [chunk line pos lsp] in *.
     (* the line break *)
     assert (Hnl : exists f p', fuel = S f /\ (length (render_gline l) + length (render_rest t) <= f)%nat /\
+              p' = (p + Z.of_nat (length (nl_bytes k)))%Z /\
               skip_ws_f fuel p2 p1 (mkLst ch ln ls p) (cst_of pend last em) errs =
               skip_ws_f f p2 p1 (mkLst (render_gline l ++ render_rest t ++ tail) (ln + 1)%Z p' p') (cst_of pend last em) errs).
     { destruct k; cbn [nl_bytes length] in Hf.
-      - destruct fuel as [|f]; [lia|]. exists f, (p + 1)%Z. split; [reflexivity|]. split; [lia|].
+      - destruct fuel as [|f]; [lia|]. exists f, (p + 1)%Z. split; [reflexivity|]. split; [lia|]. split; [reflexivity|].
         apply lf_iter; [rewrite Hc, <- !app_assoc; reflexivity|]. apply negb_true_iff in Hk. exact Hk.
-      - destruct fuel as [|f]; [lia|]. exists f, (p + 2)%Z. split; [reflexivity|]. split; [lia|].
+      - destruct fuel as [|f]; [lia|]. exists f, (p + 2)%Z. split; [reflexivity|]. split; [lia|]. split; [reflexivity|].
         apply crlf_iter. rewrite Hc, <- !app_assoc. reflexivity. }
-    destruct Hnl as [f [p' [-> [Hf1 Hnl]]]]. rewrite Hnl. clear Hnl Hc Hf ch.
+    destruct Hnl as [f [p' [-> [Hf1 [Hp' Hnl]]]]]. rewrite Hnl. clear Hnl Hc Hf ch.
     unfold render_gline in Hf1 |- *. rewrite app_length in Hf1. rewrite <- app_assoc.
     (* the indentation *)
     match goal with
@@ -274,37 +280,75 @@ Proof.
       | |- context [skip_ws_f f2 p2 p1 ?S _ errs] =>
         assert (HIH := IH f2 p2 p1 S tail pend' (ln + 1)%Z em' errs true)
       end.
-      destruct HIH as [s' [cs' [H1 [H2 [H3 H4]]]]]; [ | exact Hr3 | exact Ht | | | exact Hpe' | ].
+      destruct HIH as [s' [cs' [H1 [H2 [H3 [H4 [H5 H6]]]]]]]; [ | exact Hr3 | exact Ht | | | exact Hpe' | ].
       * unfold adv. cbn [chunk]. cbn [plus skipn]. apply skipn_app_len.
       * lia.
       * unfold adv. cbn [line]. lia.
       * exists s', cs'. split; [exact H1|]. split; [exact H2|].
-        unfold adv in H3, H4. cbn [line] in H3, H4. split; [rewrite H3; cbn [length]; lia|].
-        rewrite H4. rewrite Hruns. cbn [rest_clines]. unfold cline_of. rewrite Ecm. cbn [app].
-        replace (p' + Z.of_nat (length (gl_indent l)) - p' + 2)%Z with (0 + Z.of_nat (length (gl_indent l)) + 2)%Z by lia.
-        reflexivity.
+        unfold adv in H3, H4, H5, H6. cbn [line pos lsp] in H3, H4, H5, H6. split; [rewrite H3; cbn [length]; lia|].
+        split.
+        { rewrite H4. rewrite Hruns. cbn [rest_clines]. unfold cline_of. rewrite Ecm. cbn [app].
+          replace (p' + Z.of_nat (length (gl_indent l)) - p' + 2)%Z with (0 + Z.of_nat (length (gl_indent l)) + 2)%Z by lia.
+          reflexivity. }
+        assert (Hlen : length (render_rest ((k, l) :: t))
+                       = (length (nl_bytes k) + (length (gl_indent l) + (2 + length tx)) + length (render_rest t))%nat).
+        { cbn [render_rest]. rewrite !app_length. unfold render_gline. rewrite Ecm, app_length. cbn [length]. lia. }
+        rewrite Hlen. split; [lia|].
+        destruct t as [|kl t'].
+        { cbn [List.last snd]. unfold glen, render_gline. rewrite Ecm, app_length. cbn [length render_rest] in *. lia. }
+        change (List.last ((k, l) :: kl :: t') dfl_nl) with (List.last (kl :: t') dfl_nl). exact H6.
     + (* a blank line *)
       rewrite app_nil_l.
       match goal with
       | |- context [skip_ws_f ?F p2 p1 ?S _ errs] =>
         assert (HIH := IH F p2 p1 S tail pend last em errs false)
       end.
-      destruct HIH as [s' [cs' [H1 [H2 [H3 H4]]]]]; [ | exact Hr3 | exact Ht | | | exact Hpe | ].
+      destruct HIH as [s' [cs' [H1 [H2 [H3 [H4 [H5 H6]]]]]]]; [ | exact Hr3 | exact Ht | | | exact Hpe | ].
       * cbn [chunk]. reflexivity.
       * cbn [length] in Hf1. lia.
       * cbn [line]. lia.
-      * exists s', cs'. split; [exact H1|]. split; [exact H2|]. cbn [line] in H3, H4.
-        split; [rewrite H3; cbn [length]; lia|]. rewrite H4. cbn [rest_clines]. unfold cline_of. rewrite Ecm. reflexivity.
+      * exists s', cs'. split; [exact H1|]. split; [exact H2|]. cbn [line pos lsp] in H3, H4, H5, H6.
+        split; [rewrite H3; cbn [length]; lia|].
+        split; [rewrite H4; cbn [rest_clines]; unfold cline_of; rewrite Ecm; reflexivity|].
+        assert (Hlen : length (render_rest ((k, l) :: t))
+                       = (length (nl_bytes k) + length (gl_indent l) + length (render_rest t))%nat).
+        { cbn [render_rest]. rewrite !app_length. unfold render_gline. rewrite Ecm, app_length. cbn [length]. lia. }
+        rewrite Hlen. split; [lia|].
+        destruct t as [|kl t'].
+        { cbn [List.last snd]. unfold glen, render_gline. rewrite Ecm, app_length. cbn [length render_rest] in *. lia. }
+        change (List.last ((k, l) :: kl :: t') dfl_nl) with (List.last (kl :: t') dfl_nl). exact H6.
 Qed.
 
 Lemma runs_nil_last : forall cs a b, runs cs [] a = runs cs [] b.
 Proof. intros [|c cs] a b; reflexivity. Qed.
 
-(* ---- the theorem: skipWhiteSpaces on a well-formed gap records exactly the entries of the description *)
-Theorem skip_ws_gap : forall p2 p1 s g tail,
+Lemma last_map_snd : forall (r : list (nlk * gline)) d d', r <> [] -> snd (List.last r d) = List.last (map snd r) d'.
+Proof.
+  induction r as [|x r IH]; intros d d' Hne; [congruence|].
+  destruct r as [|y r]; [reflexivity|].
+  change (List.last (x :: y :: r) d) with (List.last (y :: r) d).
+  change (List.last (map snd (x :: y :: r)) d') with (List.last (map snd (y :: r)) d').
+  apply IH. discriminate.
+Qed.
+
+Lemma after_gap_eq : forall s' ch ln ls p l0 r tail,
+  chunk s' = tail -> line s' = (ln + Z.of_nat (length r))%Z ->
+  pos s' = (p + Z.of_nat (length (render_gline l0)) + Z.of_nat (length (render_rest r)))%Z ->
+  lsp s' = match r with [] => ls | _ => (pos s' - Z.of_nat (glen (snd (List.last r dfl_nl))))%Z end ->
+  s' = after_gap (mkLst ch ln ls p) (mkGap l0 r) tail.
+Proof.
+  intros [ch' ln' ls' p'] ch ln ls p l0 r tail H1 H2 H3 H4. cbn [chunk line lsp pos] in *.
+  unfold after_gap, render_gap, last_gline. cbn [g_first g_rest chunk line lsp pos]. rewrite app_length.
+  subst ch' ln'. f_equal; [|lia].
+  destruct r as [|x r]; [exact H4|]. rewrite H4.
+  rewrite (last_map_snd (x :: r) dfl_nl l0) by discriminate. unfold glen. lia.
+Qed.
+
+(* ---- the theorem: skipWhiteSpaces on a well-formed gap records exactly the entries of the description and leaves the
+   scanner in the state `after_gap` *)
+Theorem skip_ws_gap_state : forall p2 p1 s g tail,
   chunk s = render_gap g ++ tail -> gap_ok g tail = true -> (pline p1 <= line s)%Z ->
-  exists s', skip_ws p2 p1 s = (s', spec_entries (pline p1) (line s) (pos s - lsp s)%Z g, [])
-             /\ chunk s' = tail /\ line s' = (line s + Z.of_nat (length (g_rest g)))%Z.
+  skip_ws p2 p1 s = (after_gap s g tail, spec_entries (pline p1) (line s) (pos s - lsp s)%Z g, []).
 Proof.
   intros p2 p1 s [l0 r] tail Hc Hok Hp. unfold gap_ok in Hok. cbn [g_first g_rest] in *.
   apply andb_true_iff in Hok. destruct Hok as [Hok Hr]. apply andb_true_iff in Hok. destruct Hok as [Hl Ht].
@@ -322,6 +366,8 @@ Proof.
   destruct (gl_comment l0) as [tx|] eqn:Ecm.
   - apply andb_true_iff in Hcm. destruct Hcm as [Htx Hbr]. apply negb_true_iff in Hbr.
     cbn [length] in Hlen.
+    assert (Hgl : length (render_gline l0) = (length (gl_indent l0) + (2 + length tx))%nat).
+    { unfold render_gline. rewrite Ecm, app_length. reflexivity. }
     destruct (fuel - length (gl_indent l0))%nat as [|f2] eqn:Ef; [lia|].
     rewrite (comment_iter f2 p2 p1 _ tx (render_rest r ++ tail) _ []);
       [| cbn [chunk app]; reflexivity | exact Htx | exact Hbr | apply nl_first_rest; exact Hr].
@@ -336,13 +382,14 @@ Proof.
       | |- context [skip_ws_f f2 p2 p1 ?S _ []] =>
         assert (HIH := rest_steps r f2 p2 p1 S tail [] ln [trailing_entry c] [] true)
       end.
-      destruct HIH as [s' [cs' [H1 [H2 [H3 H4]]]]]; [ | exact Hr | exact Ht | | | left; reflexivity | ].
+      destruct HIH as [s' [cs' [H1 [H2 [H3 [H4 [H5 H6]]]]]]]; [ | exact Hr | exact Ht | | | left; reflexivity | ].
       * unfold adv. cbn [chunk]. cbn [plus skipn]. apply skipn_app_len.
       * lia.
       * unfold adv. cbn [line]. exact Hp.
-      * exists s'. rewrite H1. unfold finish in H4. unfold adv in H3, H4. cbn [line] in H3, H4.
-        split; [|split; [exact H2|exact H3]].
-        f_equal. f_equal. cbn [map]. rewrite (runs_nil_last _ 0%Z ln).
+      * rewrite H1. unfold finish in H4. unfold adv in H3, H4, H5, H6. cbn [line pos lsp] in H3, H4, H5, H6.
+        f_equal. f_equal.
+        { apply after_gap_eq; [exact H2|exact H3|rewrite H5, Hgl; lia|exact H6]. }
+        cbn [map]. rewrite (runs_nil_last _ 0%Z ln).
         destruct (cur cs'); exact H4.
     + (* first line of a block *)
       change (comment_step (cst_of [] 0 []) true true tx ln (p - ls + Z.of_nat (length (gl_indent l0)) + 2)%Z)
@@ -351,25 +398,38 @@ Proof.
       | |- context [skip_ws_f f2 p2 p1 ?S _ []] =>
         assert (HIH := rest_steps r f2 p2 p1 S tail [c] ln [] [] true)
       end.
-      destruct HIH as [s' [cs' [H1 [H2 [H3 H4]]]]]; [ | exact Hr | exact Ht | | | right; reflexivity | ].
+      destruct HIH as [s' [cs' [H1 [H2 [H3 [H4 [H5 H6]]]]]]]; [ | exact Hr | exact Ht | | | right; reflexivity | ].
       * unfold adv. cbn [chunk]. cbn [plus skipn]. apply skipn_app_len.
       * lia.
       * unfold adv. cbn [line]. exact Hp.
-      * exists s'. rewrite H1. unfold finish in H4. unfold adv in H3, H4. cbn [line] in H3, H4.
-        split; [|split; [exact H2|exact H3]].
-        f_equal. f_equal. cbn [app runs]. change (cl_line c) with ln.
+      * rewrite H1. unfold finish in H4. unfold adv in H3, H4, H5, H6. cbn [line pos lsp] in H3, H4, H5, H6.
+        f_equal. f_equal.
+        { apply after_gap_eq; [exact H2|exact H3|rewrite H5, Hgl; lia|exact H6]. }
+        cbn [app runs]. change (cl_line c) with ln.
         destruct (cur cs'); exact H4.
   - rewrite app_nil_l.
+    assert (Hgl : length (render_gline l0) = length (gl_indent l0)).
+    { unfold render_gline. rewrite Ecm, app_length. cbn [length]. lia. }
     match goal with
     | |- context [skip_ws_f ?F p2 p1 ?S _ []] =>
       assert (HIH := rest_steps r F p2 p1 S tail [] 0%Z [] [] false)
     end.
-    destruct HIH as [s' [cs' [H1 [H2 [H3 H4]]]]]; [ | exact Hr | exact Ht | | | left; reflexivity | ].
+    destruct HIH as [s' [cs' [H1 [H2 [H3 [H4 [H5 H6]]]]]]]; [ | exact Hr | exact Ht | | | left; reflexivity | ].
     + cbn [chunk]. reflexivity.
     + cbn [length] in Hlen. lia.
     + cbn [line]. exact Hp.
-    + exists s'. rewrite H1. unfold finish in H4. cbn [line] in H3, H4.
-      split; [|split; [exact H2|exact H3]].
-      f_equal. f_equal. unfold cline_of. rewrite Ecm. cbn [map app].
+    + rewrite H1. unfold finish in H4. cbn [line pos lsp] in H3, H4, H5, H6.
+      f_equal. f_equal.
+      { apply after_gap_eq; [exact H2|exact H3|rewrite H5, Hgl; lia|exact H6]. }
+      unfold cline_of. rewrite Ecm. cbn [map app].
       destruct (pline p1 =? ln)%Z; destruct (cur cs'); exact H4.
+Qed.
+
+Theorem skip_ws_gap : forall p2 p1 s g tail,
+  chunk s = render_gap g ++ tail -> gap_ok g tail = true -> (pline p1 <= line s)%Z ->
+  exists s', skip_ws p2 p1 s = (s', spec_entries (pline p1) (line s) (pos s - lsp s)%Z g, [])
+             /\ chunk s' = tail /\ line s' = (line s + Z.of_nat (length (g_rest g)))%Z.
+Proof.
+  intros p2 p1 s g tail Hc Hok Hp. exists (after_gap s g tail).
+  split; [apply skip_ws_gap_state; assumption|]. split; reflexivity.
 Qed.
